@@ -54,6 +54,12 @@ VerdictC05(q, multi) ==
   ELSE IF Rw(multi[6]) # five \o " " \o q.sep \o ", " \o five THEN "separator-before-punctuation-not-left-as-word"
   ELSE ""
 \* C08
+RECURSIVE SplitBlank(_, _, _)
+SplitBlank(s, i, cur) == IF i > Len(s) THEN (IF cur = "" THEN <<>> ELSE <<cur>>)
+                         ELSE IF Ch(s, i) = " " THEN (IF cur = "" THEN <<>> ELSE <<cur>>) \o SplitBlank(s, i + 1, "")
+                         ELSE SplitBlank(s, i + 1, cur \o Ch(s, i))
+RECURSIVE LexCat(_, _)
+LexCat(L, ns) == IF ns = <<>> THEN <<>> ELSE Lex99(L, Head(ns)) \o LexCat(L, Tail(ns))
 VerdictC08(q, multi) ==
   IF PanicIn(multi) THEN "panic"
   ELSE IF q.kind = "pair" THEN
@@ -62,8 +68,16 @@ VerdictC08(q, multi) ==
         both == NatStr(a) \o q.joiner \o NatStr(b)
         fused == {NatStr(c) : c \in Fused(L, a, b)}
         zero == IF a = 0 /\ ~q.conj THEN {"0" \o NatStr(b)} ELSE {}
+        \* the same words can sometimes be cut differently into two or three standard numbers ("vingt quatre vingts" is 20 80 as well
+        \* as 24 20): any segmentation whose lexemes are exactly those of a followed by those of b is a faithful reading
+        pieces == SplitBlank(Rw(multi[1]), 1, "")
+        segOK == /\ ~q.conj /\ Len(pieces) >= 1 /\ Len(pieces) <= 3
+                 /\ \A k \in 1..Len(pieces) : pieces[k] # "" /\ IsDigits(pieces[k]) /\ Len(pieces[k]) <= 2
+                                              /\ (Len(pieces[k]) = 1 \/ Ch(pieces[k], 1) # "0")
+                 /\ LexCat(L, [k \in 1..Len(pieces) |-> StrNat(pieces[k])]) = Lex99(L, a) \o Lex99(L, b)
     IN IF q.texts[1] # sa \o q.joiner \o sb THEN "tool-error-phrase-is-not-the-grammar's"
        ELSE IF Rw(multi[1]) \in ({both} \cup fused \cup zero) THEN ""
+       ELSE IF segOK THEN ""
        ELSE "two-numbers-fused-or-altered"
   ELSE IF q.texts[1] # Dictation(q.lang, q.d) THEN "tool-error-phrase-is-not-the-grammar's"
   ELSE IF Rw(multi[1]) # JoinWith(DictGroups(q.d, ""), " ") THEN "dictated-digits-lost-or-regrouped"
